@@ -73,7 +73,7 @@ pub fn set_bits(csd: &mut [u8; 16], hi: usize, lo: usize, val: u32) {
 }
 
 /// CSD register from its fields, per SD Physical Layer spec 5.3
-pub fn mkcsd(ver: u32, c_size: u32, mult: u32, bl_len: u32) -> [u8; 16] {
+pub fn mkcsd(ver: u32, c_size: u32, mult: u32, bl_len: u32, erase_en: u32) -> [u8; 16] {
     let mut c = [0u8; 16];
     set_bits(&mut c, 127, 126, ver);
     set_bits(&mut c, 119, 112, 0x0E); // TAAC
@@ -86,7 +86,7 @@ pub fn mkcsd(ver: u32, c_size: u32, mult: u32, bl_len: u32) -> [u8; 16] {
     } else {
         set_bits(&mut c, 69, 48, c_size);
     }
-    set_bits(&mut c, 46, 46, 1); // ERASE_BLK_EN
+    set_bits(&mut c, 46, 46, erase_en); // ERASE_BLK_EN
     set_bits(&mut c, 45, 39, 0x7F);
     set_bits(&mut c, 25, 22, 9);
     let crc = crc7_ref(&c[0..15]);
